@@ -22,7 +22,7 @@ ASSUMPTIONS = [
     "'fails with an error' = any exception from assign_option_indexes()/build(); 'must succeed' is only demanded when every run has <= 15 options, the sum of run lengths is <= 255 and all fields fit",
     "the 4-bit counter is generated in range only: the library has no separate counter field (it is part of the 32-bit minver_or_counter)",
 ]
-BUDGET = {"quick": {"examples": 8000, "shrink": 250}, "thorough": {"examples": 320000, "shrink": 1500}}
+BUDGET = {"quick": {"examples": 8000, "shrink": 250}, "thorough": {"examples": 200000, "shrink": 1500}}
 
 
 def filler(i):
